@@ -351,7 +351,17 @@ def foreignfile(repo):
             if not foreign:
                 continue
 
+            # locals that hold a location taken from a foreign object (`loc = x.source_location or x.name.source_location`)
+            derived = {}
+            for n in walk_no_nested_funcs(f.node):
+                if isinstance(n, ast.Assign) and len(n.targets) == 1 and isinstance(n.targets[0], ast.Name) \
+                        and not (isinstance(n.value, ast.Call) and (call_name(n.value) or "").split(".")[-1] in _LOOKUPS):
+                    if any(isinstance(x, ast.Attribute) and isinstance(x.value, ast.Name) and x.value.id in foreign for x in ast.walk(n.value)):
+                        derived[n.targets[0].id] = n.value
+
             def is_foreign(a):
+                if isinstance(a, ast.Name) and a.id in derived:
+                    return True
                 root = a
                 while isinstance(root, (ast.Attribute, ast.Subscript)):
                     root = root.value
